@@ -145,9 +145,20 @@ static void runSem(const std::string& tag, Rng& r) {
       ns.push_back(n); continue; } if (r.below(5) < 2) { n.kind = 2; n.a = r.below(2) ? (int)ns.size() - 1 : (int)r.below(ns.size()); for (int k = 0; k < 3; k++) n.t[k] = (int)r.below(3) - 1; n.flip = r.below(2) == 0 ? (int)r.below(3) : -1; }
     else { n.kind = 1; n.a = r.below(2) ? (int)ns.size() - 1 : (int)r.below(ns.size()); n.b = (int)r.below(ns.size()); n.op = (int)r.below(3); } ns.push_back(n); }
   std::string ref; double refVol = 0; int refStatus = 0; bool ok = true; std::string msg;
-  for (int hist = 0; hist < 5 && ok; hist++) {
+  for (int hist = 0; hist < 6 && ok; hist++) {
     std::vector<Manifold> made;
     if (hist == 4) { made.push_back(buildTree(ns, (int)ns.size() - 1)); }
+    else if (hist == 5) {
+      // everything lazy; then the handles of all intermediate nodes are given up in a random order, and next to some of them an
+      // extra derived expression is built on a transformed view and destroyed WITHOUT ever being forced; only then the root is forced
+      for (size_t i = 0; i < ns.size(); i++) made.push_back(build(ns, made, (int)i, false));
+      std::vector<size_t> ord; for (size_t k = 0; k + 1 < made.size(); k++) ord.push_back(k);
+      for (size_t k = ord.size(); k > 1; --k) std::swap(ord[k - 1], ord[r.below(k)]);
+      for (size_t k : ord) {
+        if (ns[k].kind != 0 && r.below(2)) { Manifold tmp = r.below(2) ? made[k].Translate(vec3(1, 0, 0)) + made[r.below(nleaf)] : made[k] - made[r.below(nleaf)].Translate(vec3(0, 1, 0)); (void)tmp; }
+        made[k] = Manifold();
+      }
+    }
     else for (size_t i = 0; i < ns.size(); i++) {
       made.push_back(build(ns, made, (int)i, hist == 1));
       if (hist == 2 && r.below(3) == 0) (void)made[r.below(made.size())].NumTri();       // random forcing history
@@ -156,7 +167,7 @@ static void runSem(const std::string& tag, Rng& r) {
     const Manifold& root = made.back();
     std::string c = classify(root); double vol = root.Volume(); int st = (int)root.Status();
     if (hist == 0) { ref = c; refVol = vol; refStatus = st; }
-    else { if (c != ref) { ok = false; msg = "voxel classification differs between forcing histories 0 and " + std::to_string(hist); }
+    else { if (c != ref) { ok = false; msg = "voxel classification differs between forcing histories 0 and " + std::to_string(hist) + (hist == 5 ? " (intermediate handles and unforced derived temporaries dropped before forcing the root)" : ""); }
       if (st != refStatus) { ok = false; msg = "Status differs between forcing histories"; }
       if (std::fabs(vol - refVol) > 1e-9 * (1 + std::fabs(refVol))) { ok = false; msg = "volume differs between forcing histories"; } }
   }
